@@ -570,7 +570,7 @@ def sample_runs(ctx, n, kinds=None, fixed=True):
 
 def get_runs(ctx):
     if not hasattr(ctx, "_c05_runs"):
-        ctx._c05_runs = sample_runs(ctx, ctx.budget(260, 5000))
+        ctx._c05_runs = sample_runs(ctx, ctx.budget(260, 3200))
     return ctx._c05_runs
 
 
@@ -809,7 +809,7 @@ def oracle_plans(ctx, n):
 
 
 def oracle(ctx):
-    oracle_plans(ctx, ctx.budget(1500, 20000))
+    oracle_plans(ctx, ctx.budget(1500, 12000))
     for run in get_runs(ctx):
         report(ctx, run, oracle_run(ctx, run))
         if run.status.startswith("refused") and run.case["kind"] in ("chain", "multi"):
